@@ -1759,7 +1759,7 @@ class AbsPaths:
                     val = ("refmut", q["l"])
             else:
                 base = st.get(q["l"])
-                if q["p"] == ["*"] and base is not None and base[0] in ("ref", "refmut"):
+                if q["p"] == ["*"] and base is not None and base[0] in ("ref", "refmut", "cellref", "pref"):
                     val = base  # a reborrow `&mut *r` designates the same location as r
                 else:
                     lp = self._resolve_loc(st, q) if r["bk"] == "mut" else None
@@ -1839,6 +1839,13 @@ class AbsPaths:
         return loc, path
 
     def _store(self, st, p, val):
+        base = st.get(p["l"])
+        if p["p"] == ["*"] and base is not None and base[0] == "cellref":
+            if val is None:
+                st.pop(base[1], None)
+            else:
+                st[base[1]] = val
+            return
         lp = self._resolve_loc(st, p)
         if lp is None:
             st.pop(p["l"], None)
@@ -1864,6 +1871,17 @@ class AbsPaths:
             st[loc] = nv
 
     def _call(self, st, t):
+        if t["dest"]["p"] and not is_noise(t):
+            # the result is written into part of a value / through a reference (`*uri = Uri::from_parts(..)`): evaluate the call
+            # into a scratch local, then store
+            TMP = -999998
+            t2 = dict(t)
+            t2["dest"] = {"l": TMP, "p": []}
+            forks = self._call(st, t2)
+            for s_ in (forks if forks is not None else [st]):
+                v = s_.pop(TMP, None)
+                self._store(s_, t["dest"], v)
+            return forks
         site = CallSite(self.fn, -1, t)
         n = norm(site.name)
         res = None
